@@ -1,214 +1,261 @@
 /-
-C02, joint model, one-in-port node kinds, part 4: the node's log invariant under delivery, `Read`, the
-action's return and `Link`.
+C02, joint model over the abstract tracer, part 4: the schedules of classes T3 (`ExtT3`) and T4 (`ExtT4`), what
+`release` needs from an action's result (`ProgOK`, `ProgE`), class T2 ⊆ T3, and the fork workflow of the T3/T4 instances.
 -/
 import Uniflow.Proofs.FlowH3
 
 namespace Uniflow.FlowH
 open Uniflow.Tracer Uniflow.Node Uniflow.Flow Uniflow.FlowInv Uniflow.FlowG Uniflow.ATracer
+open Uniflow.ATracer (getL_setOrDel getL_aset)
 
-theorem mem_updReq_cases (p : Pid) (f : RSt → RSt) : ∀ (rs : List Req) (y : Req), (rs.map (·.p)).Nodup →
-    y ∈ updReq p f rs → (y ∈ rs ∧ y.p ≠ p) ∨ ∃ x ∈ rs, x.p = p ∧ y = { x with st := f x.st }
-  | [], y, _, h => by simp [updReq] at h
-  | z :: zs, y, hnd, h => by
-    simp only [List.map_cons, List.nodup_cons] at hnd
-    simp only [updReq] at h
-    by_cases e : z.p = p
-    · rw [if_pos e] at h
-      simp only [List.mem_cons] at h
-      rcases h with h | h
-      · right; exact ⟨z, List.mem_cons_self, e, h⟩
-      · left
-        refine ⟨List.mem_cons_of_mem _ h, fun e2 => hnd.1 ?_⟩
-        rw [e, ← e2]; exact List.mem_map_of_mem h
-    · rw [if_neg e] at h
-      simp only [List.mem_cons] at h
-      rcases h with h | h
-      · left; rw [h]; exact ⟨List.mem_cons_self, e⟩
-      · rcases mem_updReq_cases p f zs y hnd.2 h with ⟨h1, h2⟩ | ⟨x, h1, h2, h3⟩
-        · left; exact ⟨List.mem_cons_of_mem _ h1, h2⟩
-        · right; exact ⟨x, List.mem_cons_of_mem _ h1, h2, h3⟩
+/-- the schedules of class T3: the source sends, a sink answers, an action returns one new packet
+(`out`, on the first out port), one new error packet, or – in a one-to-many node – new packets on several
+out ports, at least one of them on an existing port -/
+def ExtT3 (kinds : List Kind) : Ext → Prop
+  | .send _ => True
+  | .sinkAnswer _ _ => True
+  | .release n (.out _) => kinds[n]? = none ∨ kinds[n]? = some .oneToOne ∨ ∃ k, kinds[n]? = some (.oneToMany (k + 1))
+  | .release _ (.err _) => True
+  | .release n (.many vs) => ∃ k, kinds[n]? = some (.oneToMany k) ∧ ∃ j v, j < k ∧ vs[j]? = some (some v)
+  | _ => False
 
-theorem nodup_p (rs : List Req) (h : (ids rs).Nodup) : (rs.map (·.p)).Nodup :=
-  (map_p_sublist rs).nodup h
+theorem allocOuts_some : ∀ (vs : List (Option Val)) (c : Pid) (j : Nat) (v : Val), vs[j]? = some (some v) →
+    ∃ q, (allocOuts vs c).1[j]? = some (some q)
+  | [], _, _, _, h => by simp at h
+  | none :: vs, c, 0, v, h => by simp at h
+  | some v0 :: vs, c, 0, v, _ => ⟨⟨c, v0⟩, by simp [allocOuts]⟩
+  | none :: vs, c, j + 1, v, h => by
+    simp only [List.getElem?_cons_succ] at h
+    obtain ⟨q, hq⟩ := allocOuts_some vs c j v h
+    exact ⟨q, by simpa [allocOuts] using hq⟩
+  | some v0 :: vs, c, j + 1, v, h => by
+    simp only [List.getElem?_cons_succ] at h
+    obtain ⟨q, hq⟩ := allocOuts_some vs (c + 1) j v h
+    exact ⟨q, by simpa [allocOuts] using hq⟩
 
-theorem optl_nil : optl [] = none := rfl
+theorem validOuts_ne (n : Nat) : ∀ (qs : List (Option Pkt)) (i j : Nat) (q : Pkt), qs[j]? = some (some q) → i + j < n →
+    validOuts n i qs ≠ []
+  | [], _, _, _, h, _ => by simp at h
+  | none :: qs, i, 0, q, h, _ => by simp at h
+  | some q0 :: qs, i, 0, q, _, hlt => by simp only [validOuts]; rw [if_pos (by omega)]; simp
+  | none :: qs, i, j + 1, q, h, hlt => by
+    simp only [List.getElem?_cons_succ] at h
+    simp only [validOuts]; exact validOuts_ne n qs (i + 1) j q h (by omega)
+  | some q0 :: qs, i, j + 1, q, h, hlt => by
+    simp only [List.getElem?_cons_succ] at h
+    simp only [validOuts]
+    split
+    · simp
+    · exact validOuts_ne n qs (i + 1) j q h (by omega)
 
-/-- a copy is delivered to the node's in-port -/
-theorem nl_deliver (lg : Log) (n : Nat) (th : Thread) (a : A) (h : NL lg n th a) (c : Pid) (v : Val)
-    (hu : Unlogged lg c) (ho : aget lg.owner c = some (n * 64)) :
-    NL lg n { th with inbox := th.inbox ++ [⟨c, v⟩] } a := by
-  refine ⟨?_, h.own, h.req, h.nz, h.wb⟩
-  intro p hp
-  simp only [List.mem_append, List.mem_singleton] at hp
-  rcases hp with hp | hp
-  · exact h.inb p hp
-  · subst hp; exact ⟨hu, ho⟩
+/-- what `release` needs from the class: the action's result yields a program with at least one link, and the
+packets it introduces are new -/
+def ProgOK (kind : Kind) (p : Pkt) (o : Outcome) (c nx : Pid) : Prop :=
+  ∃ ops, program kind p o = some ops ∧ linkTargets ops ≠ [] ∧ (introS (.finish 0 o)).Nodup ∧
+    (∀ k ∈ introS (.finish 0 o), c ≤ k ∧ k < nx) ∧ c ≤ nx
 
-/-- `Read`: the request enters the tracer, nothing registered yet -/
-theorem nl_read (lg : Log) (n : Nat) (a : A) (p : Pkt) (rest : List Pkt)
-    (h : NL lg n { inbox := p :: rest, pc := .idle } a) :
-    NL lg n { inbox := rest, pc := .action p [p] } (aread a 0 p.id) := by
-  obtain ⟨hu, ho⟩ := h.inb p (by simp)
-  refine ⟨fun q hq => h.inb q (by simp [hq]), ?_, ?_, ?_, trivial⟩
-  · intro x hx
-    simp only [aread, List.mem_append, List.mem_singleton] at hx
-    rcases hx with hx | hx
-    · exact h.own x hx
-    · subst hx; exact ho
-  · intro x hx
-    simp only [aread, List.mem_append, List.mem_singleton] at hx
-    rcases hx with hx | hx
-    · rcases h.req x hx with this | ⟨v, e1, e2, _⟩
-      · left; simpa [ReqA, remFor] using this
-      · exact Or.inr ⟨v, e1, e2, rfl⟩
-    · subst hx
-      left
-      simp only [ReqA, remFor]
-      exact ⟨[], trivial, by simpa [optl] using hu.1, hu.2.2.1, hu.2.2.2, hu.2.1, by simp, by simp⟩
-  · intro x hx hst
-    simp only [aread, List.mem_append, List.mem_singleton] at hx
-    rcases hx with hx | hx
-    · rcases h.nz x hx hst with e | ⟨pk, grp, e, _⟩ | ⟨q, e, _⟩
-      · simp [remFor] at e
-      · cases e
-      · cases e
-    · subst hx; exact Or.inr (Or.inl ⟨p, [p], rfl, rfl⟩)
+theorem prog_err (kind : Kind) (p : Pkt) (c : Pid) (v : Val) (hpc : p.id < c) :
+    ProgOK kind p (.err { id := c, pay := v }) c (c + 1) :=
+  ⟨_, rfl, by simp [linkTargets, Nat.ne_of_lt hpc], by simp [introS], by simp [introS], Nat.le_succ _⟩
 
-theorem linked_in_idsR (x : Req) (cs : List Cell) (hst : x.st = .cells cs) (q : Pid) (hq : q ∈ linkedIds cs) :
-    q ∈ idsR x := by
-  simp only [idsR, hst, cellsOfSt, List.mem_cons]; right; exact linkedIds_sub_open cs q hq
+theorem prog_out (kind : Kind) (p : Pkt) (c : Pid) (v : Val) (hpc : p.id < c)
+    (hk : kind = .oneToOne ∨ ∃ k, kind = .oneToMany (k + 1)) :
+    ProgOK kind p (.outs [some { id := c, pay := v }]) c (c + 1) := by
+  rcases hk with e | ⟨k, e⟩
+  · subst e
+    exact ⟨_, rfl, by simp [linkTargets, Nat.ne_of_lt hpc], by simp [introS, cellsOf], by simp [introS, cellsOf],
+      Nat.le_succ _⟩
+  · subst e
+    refine ⟨[.link p.id c, .write (some (outW 0)) { id := c, pay := v }], by simp [program, validOuts], ?_,
+      by simp [introS, cellsOf], by simp [introS, cellsOf], Nat.le_succ _⟩
+    simp [linkTargets, Nat.ne_of_lt hpc]
 
-/-- the action returns: the derived packets are recorded (`acts`), none is registered yet -/
-theorem nl_finish (lg lg' : Log) (n : Nat) (a : A) (p : Pkt) (grp inbox : List Pkt) (ops : List Op)
-    (h : NL lg n { inbox := inbox, pc := .action p grp } a) (hnd : (ids a.reqs).Nodup)
-    (hX : (⟨p.id, 0, .cells []⟩ : Req) ∈ a.reqs) (hpi : ∀ q ∈ inbox, q.id ≠ p.id)
-    (hsrc1 : remOps p.id ops = linkTargets ops) (hsrc2 : ∀ p', p' ≠ p.id → remOps p' ops = [])
-    (hlt : linkTargets ops ≠ []) (hwb : wOK (.emit ops))
-    (hx : LogExt lg lg' p.id) (hacts : aget lg'.acts p.id = optl (linkTargets ops))
-    (he : aget lg'.echo p.id = none) (hs : aget lg'.sinkAns p.id = none) (hd : aget lg'.dels p.id = none)
-    (hrem : ∀ t ∈ linkTargets ops, Unlogged lg' t ∧ aget lg'.owner t = some (qTag n))
-    (ho : ∀ id ∈ nlIds { inbox := inbox, pc := .action p grp } a, aget lg'.owner id = aget lg.owner id) :
-    NL lg' n { inbox := inbox, pc := .emit ops } a := by
-  have ho1 : ∀ q ∈ inbox, aget lg'.owner q.id = aget lg.owner q.id :=
-    fun q hq => ho q.id (by simp only [nlIds, List.mem_append]; left; left; left; exact List.mem_map_of_mem hq)
-  have ho2 : ∀ x ∈ a.reqs, aget lg'.owner x.p = aget lg.owner x.p :=
-    fun x hx' => ho x.p (by simp only [nlIds, List.mem_append]; left; left; right; exact List.mem_map_of_mem hx')
-  refine ⟨?_, ?_, ?_, ?_, hwb⟩
-  rotate_left 3
-  · intro x hx' hst
-    rcases h.nz x hx' hst with e | ⟨pk, grp, e, e2⟩ | ⟨q, e, _⟩
-    · simp [remFor] at e
-    · simp only [PC.action.injEq] at e
-      left
-      simp only [remFor]
-      rw [← e2, ← e.1, hsrc1]; exact hlt
-    · cases e
-  · intro q hq
-    obtain ⟨u, o⟩ := h.inb q hq
-    exact ⟨unlogged_ext lg lg' p.id hx q.id (hpi q hq) u, by rw [ho1 q hq]; exact o⟩
-  · intro x hx'; rw [ho2 x hx']; exact h.own x hx'
-  · intro x hx'
-    by_cases e : x.p = p.id
-    · have : x = ⟨p.id, 0, .cells []⟩ := mem_unique a.reqs x _ p.id hnd hx' hX (by simp [idsR, e]) (by simp [idsR])
-      subst this
-      left
-      simp only [ReqA, remFor, hsrc1]
-      exact ⟨[], trivial, by simpa using hacts, he, hs, hd, Or.inr rfl, hrem⟩
-    · obtain ⟨s1, s2, s3, s4⟩ := hx.2 x.p e
-      rcases h.req x hx' with hr | ⟨v, e1, e2, _⟩
-      rotate_left
-      · exact Or.inr ⟨v, e1, by rw [s3]; exact e2, by simp only [remFor]; exact hsrc2 x.p e⟩
-      left
-      simp only [ReqA, remFor] at hr ⊢
-      rw [hsrc2 x.p e]
-      cases hst : x.st with
-      | direct w => rw [hst] at hr; exact hr
-      | cells cs =>
-        rw [hst] at hr
-        obtain ⟨qs, a1, a2, a3, a4, a5, a6, a7⟩ := hr
-        refine ⟨qs, ?_, by rw [s1]; exact a2, by rw [s3]; exact a3, by rw [s4]; exact a4, by rw [s2]; exact a5,
-          Or.inl rfl, by simp⟩
-        apply all2_cellA_ext lg lg' p.id hx n qs cs _ a1
-        intro q' hq'
-        refine ⟨fun e2 => ?_, ho q' (by
-          simp only [nlIds, List.mem_append]; left; right; exact mem_linkedAll a x cs hx' hst q' hq')⟩
-        have := mem_unique a.reqs x _ p.id hnd hx' hX (e2 ▸ linked_in_idsR x cs hst q' hq') (by simp [idsR])
-        rw [this] at e; exact e rfl
+theorem links_ne (p : Pkt) (c : Pid) (x : Nat × Pkt) (xs : List (Nat × Pkt)) (hx : c ≤ x.2.id) (hpc : p.id < c) :
+    linkTargets ((x :: xs).map (fun iq => Op.link p.id iq.2.id) ++
+      (x :: xs).map (fun iq => Op.write (some (outW iq.1)) iq.2)) ≠ [] := by
+  have : ¬ p.id = x.2.id := fun e => by rw [e] at hpc; exact Nat.lt_irrefl _ (Nat.lt_of_lt_of_le hpc hx)
+  simp [linkTargets, this]
 
-theorem wOK_next (o : Op) (ops : List Op) (h : wOK (.emit (o :: ops))) : wOK (nextPc ops) := by
-  cases ops with
-  | nil => trivial
-  | cons o' ops' => exact fun w q hm => h w q (List.mem_cons_of_mem _ hm)
+theorem prog_many (k : Nat) (p : Pkt) (c : Pid) (vs : List (Option Val)) (j : Nat) (v : Val) (hpc : p.id < c) (hj : j < k)
+    (hv : vs[j]? = some (some v)) :
+    ProgOK (.oneToMany k) p (.outs (allocOuts vs c).1) c (allocOuts vs c).2 := by
+  obtain ⟨a1, a2, a3⟩ := allocOuts_ids vs c
+  obtain ⟨q, hq⟩ := allocOuts_some vs c j v hv
+  have hvo := validOuts_ne k (allocOuts vs c).1 0 j q hq (by omega)
+  cases hvl : validOuts k 0 (allocOuts vs c).1 with
+  | nil => exact absurd hvl hvo
+  | cons x xs =>
+    refine ⟨(x :: xs).map (fun iq => Op.link p.id iq.2.id) ++ (x :: xs).map (fun iq => Op.write (some (outW iq.1)) iq.2),
+      by simp only [program, hvl], ?_, by simpa [introS] using a1, by simpa [introS] using a2, a3⟩
+    have hsub := validOuts_sub k 0 (allocOuts vs c).1
+    rw [hvl] at hsub
+    exact links_ne p c x xs (a2 _ (hsub.subset (by simp))).1 hpc
 
-theorem remFor_next (p : Pid) (o : Op) (ops : List Op) :
-    remFor (.emit (o :: ops)) p = (match o with | .link s t => if s = p then [t] else [] | .write _ _ => []) ++ remFor (nextPc ops) p := by
-  cases ops with
-  | nil => cases o <;> simp [remFor, remOps, nextPc] <;> split <;> rfl
-  | cons o' ops' =>
-    cases o with
-    | link s t => simp only [remFor, remOps, nextPc]; split <;> simp
-    | write w q => simp [remFor, remOps, nextPc]
+/-- the schedules of class T4 = T3 plus: a one-to-many action returns nothing (`drop`) or any list of
+packets (`many`, possibly none on an existing port) -/
+def ExtT4 (kinds : List Kind) : Ext → Prop
+  | .send _ => True
+  | .sinkAnswer _ _ => True
+  | .release n (.out _) => kinds[n]? = none ∨ kinds[n]? = some .oneToOne ∨ ∃ k, kinds[n]? = some (.oneToMany (k + 1))
+  | .release _ (.err _) => True
+  | .release n (.many _) => kinds[n]? = none ∨ ∃ k, kinds[n]? = some (.oneToMany k)
+  | .release n .drop => kinds[n]? = none ∨ ∃ k, kinds[n]? = some (.oneToMany k)
+  | _ => False
 
-/-- `Link(p, t)`: the next derived packet is registered -/
-theorem nl_link (lg : Log) (n : Nat) (a : A) (inbox : List Pkt) (p t : Pid) (ops : List Op)
-    (h : NL lg n { inbox := inbox, pc := .emit (.link p t :: ops) } a) (hnd : (ids a.reqs).Nodup)
-    (cs : List Cell) (hX : (⟨p, 0, .cells cs⟩ : Req) ∈ a.reqs) (hpt : p ≠ t) :
-    NL lg n { inbox := inbox, pc := nextPc ops } (alink a p t) := by
-  have hf := findReq_of_mem a.reqs _ hnd hX
-  have hreqs : (alink a p t).reqs =
-      updReq p (fun st => match st with | .cells cs => .cells (cs ++ [.linked t]) | s => s) a.reqs := by
-    simp only [alink, hpt, if_false, hf]
-    rfl
-  have hcases := mem_updReq_cases p (fun st => match st with | .cells cs => .cells (cs ++ [.linked t]) | s => s)
-    a.reqs
-  refine ⟨h.inb, ?_, ?_, ?_, wOK_next _ ops h.wb⟩
-  rotate_left 2
-  · intro y hy hst
-    rw [hreqs] at hy
-    rcases hcases y (nodup_p _ hnd) hy with ⟨h1, h2⟩ | ⟨x, h1, h2, h3⟩
-    · rcases h.nz y h1 hst with e | ⟨pk, grp, e, _⟩ | ⟨q, e, _⟩
-      · left
-        rw [remFor_next] at e
-        simpa [Ne.symm h2] using e
-      · cases e
-      · simp at e
-    · have hxe : x = ⟨p, 0, .cells cs⟩ := mem_unique a.reqs x _ p hnd h1 hX (by simp [idsR, h2]) (by simp [idsR])
-      subst hxe
-      rw [h3] at hst
-      simp at hst
-  · intro y hy
-    rw [hreqs] at hy
-    rcases hcases y (nodup_p _ hnd) hy with ⟨h1, _⟩ | ⟨x, h1, _, h3⟩
-    · exact h.own y h1
-    · rw [h3]; exact h.own x h1
-  · intro y hy
-    rw [hreqs] at hy
-    rcases hcases y (nodup_p _ hnd) hy with ⟨h1, h2⟩ | ⟨x, h1, h2, h3⟩
-    · have hrf : remFor (nextPc ops) y.p = remFor (.emit (.link p t :: ops)) y.p := by
-        rw [remFor_next]; simp [Ne.symm h2]
-      rcases h.req y h1 with hr | ⟨v, e1, e2, e3⟩
-      · left
-        simp only [ReqA] at hr ⊢
-        rw [hrf]; exact hr
-      · exact Or.inr ⟨v, e1, e2, by rw [hrf]; exact e3⟩
-    · have hxe : x = ⟨p, 0, .cells cs⟩ := mem_unique a.reqs x _ p hnd h1 hX (by simp [idsR, h2]) (by simp [idsR])
-      subst hxe
-      subst h3
-      rcases h.req _ h1 with hr | ⟨v, _, _, e3⟩
-      rotate_left
-      · simp [remFor, remOps] at e3
-      left
-      simp only [ReqA] at hr ⊢
-      rw [remFor_next] at hr
-      simp only [if_true] at hr
-      obtain ⟨qs, a1, a2, a3, a4, a5, a6', a7⟩ := hr
-      have ht := a7 t (by simp)
-      refine ⟨qs ++ [t], all2_append _ _ _ _ _ a1 ⟨rfl, ht.1, ht.2⟩, ?_, a3, a4, a5, Or.inr ?_, ?_⟩
-      · rw [a2]; simp
-      · rcases a6' with e | e
-        · simp at e
-        · rw [allLinked_append, e]; rfl
-      · intro t' ht'; exact a7 t' (by simp [ht'])
+def ProgE (kind : Kind) (p : Pkt) (o : Outcome) (c nx : Pid) : Prop :=
+  program kind p o = some [.write none p] ∧ (introS (.finish 0 o)).Nodup ∧
+    (∀ k ∈ introS (.finish 0 o), c ≤ k ∧ k < nx) ∧ c ≤ nx
+
+theorem prog_many4 (k : Nat) (p : Pkt) (c : Pid) (vs : List (Option Val)) (hpc : p.id < c) :
+    ProgOK (.oneToMany k) p (.outs (allocOuts vs c).1) c (allocOuts vs c).2 ∨
+    ProgE (.oneToMany k) p (.outs (allocOuts vs c).1) c (allocOuts vs c).2 := by
+  obtain ⟨a1, a2, a3⟩ := allocOuts_ids vs c
+  cases hvl : validOuts k 0 (allocOuts vs c).1 with
+  | nil =>
+    right
+    exact ⟨by simp only [program, hvl], by simpa [introS] using a1, by simpa [introS] using a2, a3⟩
+  | cons x xs =>
+    left
+    refine ⟨(x :: xs).map (fun iq => Op.link p.id iq.2.id) ++ (x :: xs).map (fun iq => Op.write (some (outW iq.1)) iq.2),
+      by simp only [program, hvl], ?_, by simpa [introS] using a1, by simpa [introS] using a2, a3⟩
+    have hsub := validOuts_sub k 0 (allocOuts vs c).1
+    rw [hvl] at hsub
+    exact links_ne p c x xs (a2 _ (hsub.subset (by simp))).1 hpc
+
+theorem extT4_of_extT3 (kinds : List Kind) (e : Ext) (h : ExtT3 kinds e) : ExtT4 kinds e := by
+  cases e with
+  | send _ => trivial
+  | sinkAnswer _ _ => trivial
+  | release n r =>
+    cases r with
+    | out v => exact h
+    | err v => trivial
+    | same => exact h.elim
+    | drop => exact h.elim
+    | sames _ => exact h.elim
+    | many vs =>
+      obtain ⟨k, e, _⟩ := h
+      exact Or.inr ⟨k, e⟩
+
+theorem graphWF3_of_graphWF (N : Nat) (links : List (Nat × List Tgt)) (h : GraphWF N links) :
+    GraphWF3 (List.replicate N .oneToOne) links := by
+  refine ⟨by simpa using h.small, ?_, h.nodupT, ?_, h.src, ?_, ?_⟩
+  · intro k hk; rw [(List.mem_replicate.mp hk).2]; trivial
+  · intro key m port hm; simpa using h.tnode key m port hm
+  · intro key hk
+    rcases h.keys key hk with e | ⟨n, w, h1, h2, e⟩
+    · exact Or.inl e
+    · exact Or.inr ⟨n, w, by simpa using h1, Nat.lt_of_lt_of_le h2 (by decide), e⟩
+  · intro n w m port hn hw hm
+    have hn' : n < N := by simpa using hn
+    by_cases hw2 : w < 2
+    · exact h.fwd n w m port hn' hw2 hm
+    · exfalso
+      have hne : getL links (wkey n w) ≠ [] := by intro e; rw [e] at hm; simp at hm
+      have hw8 : w < 8 := hw
+      rcases h.keys (wkey n w) hne with e | ⟨n', w', _, h2, e⟩
+      · have := h.small; simp only [wkey, srcKey, srcNode] at e; omega
+      · simp only [wkey] at e; omega
+
+theorem extT3_of_extT1 (kinds : List Kind) (hk : ∀ k ∈ kinds, k = .oneToOne) (e : Ext) (h : ExtT1 e) : ExtT3 kinds e := by
+  cases e with
+  | send _ => trivial
+  | sinkAnswer _ _ => trivial
+  | release n r =>
+    cases r with
+    | out v =>
+      simp only [ExtT3]
+      cases hn : kinds[n]? with
+      | none => exact Or.inl rfl
+      | some k => right; left; rw [hk k (List.mem_of_getElem? hn)]
+    | err v => trivial
+    | same => exact h.elim
+    | many _ => exact h.elim
+    | drop => exact h.elim
+    | sames _ => exact h.elim
+
+/-- source → node 0 (one-to-many, 2 out ports); out[0] → node 1, out[1] → node 2; both feed node 3's in-port
+(fan-in); node 3 → sink 0 -/
+def forkLinks : List (Nat × List Tgt) :=
+  [(srcKey, [.node 0 0]), (wkey 0 1, [.node 1 0]), (wkey 0 2, [.node 2 0]), (wkey 1 1, [.node 3 0]),
+   (wkey 2 1, [.node 3 0]), (wkey 3 1, [.sink 0])]
+
+def forkKinds : List Kind := [.oneToMany 2, .oneToOne, .oneToOne, .oneToOne]
+
+theorem fork_getL (key : Nat) : getL forkLinks key =
+    if key = srcKey then [.node 0 0] else if key = wkey 0 1 then [.node 1 0]
+    else if key = wkey 0 2 then [.node 2 0] else if key = wkey 1 1 then [.node 3 0]
+    else if key = wkey 2 1 then [.node 3 0] else if key = wkey 3 1 then [.sink 0] else [] := by
+  simp only [forkLinks, getL, aget, srcKey, srcNode, wkey]
+  by_cases e1 : key = 1000 * 64 + 1
+  · subst e1; simp
+  · by_cases e2 : key = 0 * 64 + 1
+    · subst e2; simp
+    · by_cases e3 : key = 0 * 64 + 2
+      · subst e3; simp
+      · by_cases e4 : key = 1 * 64 + 1
+        · subst e4; simp
+        · by_cases e5 : key = 2 * 64 + 1
+          · subst e5; simp
+          · by_cases e6 : key = 3 * 64 + 1
+            · subst e6; simp
+            · simp [e1, e2, e3, e4, e5, e6]
+
+theorem fork_wf : GraphWF3 forkKinds forkLinks := by
+  refine ⟨by decide, ?_, ?_, ?_, ?_, ?_, ?_⟩
+  · intro k hk
+    simp only [forkKinds, List.mem_cons, List.mem_nil_iff, or_false] at hk
+    rcases hk with e | e | e | e <;> subst e <;> simp [KindOK, maxW]
+  · intro key; rw [fork_getL]
+    repeat' split
+    all_goals simp [rkeyOf]
+  · intro key m port hm
+    rw [fork_getL] at hm
+    repeat' split at hm
+    all_goals simp at hm
+    all_goals simp [forkKinds]; omega
+  · rw [fork_getL]; simp
+  · intro key hk
+    rw [fork_getL] at hk
+    by_cases h0 : key = srcKey
+    · left; exact h0
+    · right
+      rw [if_neg h0] at hk
+      by_cases h1 : key = wkey 0 1
+      · exact ⟨0, 1, by decide, by decide, h1⟩
+      · rw [if_neg h1] at hk
+        by_cases h2 : key = wkey 0 2
+        · exact ⟨0, 2, by decide, by decide, h2⟩
+        · rw [if_neg h2] at hk
+          by_cases h3 : key = wkey 1 1
+          · exact ⟨1, 1, by decide, by decide, h3⟩
+          · rw [if_neg h3] at hk
+            by_cases h4 : key = wkey 2 1
+            · exact ⟨2, 1, by decide, by decide, h4⟩
+            · rw [if_neg h4] at hk
+              by_cases h5 : key = wkey 3 1
+              · exact ⟨3, 1, by decide, by decide, h5⟩
+              · rw [if_neg h5] at hk; exact absurd rfl hk
+  · intro n w m port hn hw hm
+    rw [fork_getL] at hm
+    have hn4 : n < 4 := hn
+    have hw8 : w < 8 := hw
+    have h0 : ¬ (wkey n w = srcKey) := by simp only [wkey, srcKey, srcNode]; omega
+    rw [if_neg h0] at hm
+    by_cases h1 : wkey n w = wkey 0 1
+    · rw [if_pos h1] at hm; simp only [wkey] at h1; simp at hm; omega
+    · rw [if_neg h1] at hm
+      by_cases h2 : wkey n w = wkey 0 2
+      · rw [if_pos h2] at hm; simp only [wkey] at h2; simp at hm; omega
+      · rw [if_neg h2] at hm
+        by_cases h3 : wkey n w = wkey 1 1
+        · rw [if_pos h3] at hm; simp only [wkey] at h3; simp at hm; omega
+        · rw [if_neg h3] at hm
+          by_cases h4 : wkey n w = wkey 2 1
+          · rw [if_pos h4] at hm; simp only [wkey] at h4; simp at hm; omega
+          · rw [if_neg h4] at hm
+            by_cases h5 : wkey n w = wkey 3 1
+            · rw [if_pos h5] at hm; simp at hm
+            · rw [if_neg h5] at hm; simp at hm
 
 end Uniflow.FlowH
